@@ -49,3 +49,24 @@ func Recording() (*Tape, func()) {
 	crand.Reader = t
 	return t, func() { crand.Reader = orig }
 }
+
+var mu sync.Mutex
+
+// WithDeterministic runs f while a deterministic tape is installed; calls are serialised.
+func WithDeterministic(seed int64, f func()) {
+	mu.Lock()
+	defer mu.Unlock()
+	_, restore := Deterministic(seed)
+	defer restore()
+	f()
+}
+
+// WithRecording runs f while a recording pass-through tape is installed; calls are serialised.
+func WithRecording(f func()) *Tape {
+	mu.Lock()
+	defer mu.Unlock()
+	t, restore := Recording()
+	defer restore()
+	f()
+	return t
+}
